@@ -460,19 +460,27 @@ where
             warn!("wait_for_acknowledgments: cannot initiate waiting. This will timeout. {e}");
           });
 
+        // Report a timeout only after the requested time: a poll event without a token
+        // (e.g. the command could not be queued and its token sender was dropped) is not
+        // a timeout yet, so keep waiting for the rest of max_wait.
+        let deadline = Instant::now().checked_add(max_wait);
         let mut events = Events::with_capacity(1);
-        poll.poll(&mut events, Some(max_wait))?;
-        if let Some(_event) = events.iter().next() {
-          match acked_receiver.try_recv() {
-            Ok(_) => Ok(true), // got token
-            Err(e) => {
-              warn!("wait_for_acknowledgments - Spurious poll event? - {e}");
-              Ok(false) // TODO: We could also loop here
+        loop {
+          let remaining =
+            deadline.map_or(max_wait, |d| d.saturating_duration_since(Instant::now()));
+          poll.poll(&mut events, Some(remaining))?;
+          if let Some(_event) = events.iter().next() {
+            match acked_receiver.try_recv() {
+              Ok(_) => return Ok(true), // got token
+              Err(e) => {
+                warn!("wait_for_acknowledgments - Spurious poll event? - {e}");
+              }
             }
           }
-        } else {
-          // no token, so presumably timed out
-          Ok(false)
+          if deadline.is_some_and(|d| Instant::now() >= d) {
+            // no token, so timed out
+            return Ok(false);
+          }
         }
       }
     } // match
